@@ -64,10 +64,52 @@ def case_key(e):
     return (e["c"], e["k"], e["fn"], e["i1"], e["i2"], json.dumps(e["a"]))
 
 
+def crash_verdict(prop, scratch, binp, intent, output, verdicts):
+    """The harness process died.  If it died inside the library (a fatal runtime error such as out of memory cannot be recovered
+    in-process), the call that was in flight is in the intent file: repeat exactly that call in a child process; when the child
+    dies too the crash is the reproduced outcome of that call and TLC judges it like any other outcome.  Anything else is a
+    failure of the machinery (exit 2)."""
+    died_in_library = "fatal error:" in output or "panic:" in output
+    if not died_in_library or not os.path.exists(intent) or os.path.getsize(intent) == 0:
+        raise V.Inconclusive("the codec harness failed:\n" + output[-2000:])
+    rp = json.load(open(intent))
+    outp = scratch.path("tr-%s-crash" % prop)
+    for attempt in range(2):
+        c = V.run([binp, "-replay", intent, "-shards", "1", "-out", outp + "-%d" % attempt], timeout=300, check=False)
+        if c.returncode == 0 or not ("fatal error:" in (c.stdout or "") or "panic:" in (c.stdout or "")):
+            raise V.Inconclusive("the codec harness died (%s) but the call in flight does not reproduce the crash in a child process:\n%s"
+                                 % (output.strip().splitlines()[0][:200] if output.strip() else "?", json.dumps(rp["events"][-1])[:400]))
+    reason = next((l for l in output.splitlines() if l.startswith("fatal error:") or l.startswith("panic:")), "crash")
+    ev = rp["events"]
+    ev[-1]["st"] = "crash"
+    ev[-1]["note"] = "the process died in this call, twice more when the call was repeated alone in a child process: " + reason
+    tf = scratch.path("crash-%s.ndjson" % prop)
+    with open(tf, "w") as f:
+        for e in ev:
+            f.write(json.dumps(e) + "\n")
+    for _, r in V.tlc_trace(scratch, "TraceCodec", "TraceCodec.cfg", [tf], label="tv-%s-crash" % prop):
+        if r["n"] != len(ev):
+            raise V.Inconclusive("TLC consumed %d of %d crash events" % (r["n"], len(ev)))
+        for i in r["bad"]:
+            verdicts.fail(sig_of(ev[i - 1], "process-crash"), {"property": prop, "family": "codec", "events": ev, "observed": ev[i - 1]}, "crash-%d" % i)
+        if not r["bad"]:
+            raise V.Inconclusive("the specification explains a process crash?")
+
+
 def run_traces(prop, scratch, harness_args, verdicts, stats, replay=False):
     binp = V.build_harness(scratch, "codec")
     outp = scratch.path("tr-" + prop)
-    p = V.run([binp] + harness_args + ["-out", outp], timeout=3600)
+    intent = scratch.path("intent-%s.json" % prop)
+    p = V.run([binp] + harness_args + ["-out", outp, "-intent", intent], timeout=3600, check=False)
+    if p.returncode != 0:
+        crash_verdict(prop, scratch, binp, intent, p.stdout or "", verdicts)
+        stats.setdefault("events", 0)
+        stats["events"] += 2
+        stats.setdefault("seen", set()).add(hash("crash"))
+        stats.setdefault("nontrivial", set()).add(hash("crash"))
+        stats.setdefault("samples", [])
+        stats["crashed"] = True
+        return []
     info = json.loads(p.stdout.strip().splitlines()[-1])
     files = sorted(f for f in (os.path.join(scratch.dir, x) for x in os.listdir(scratch.dir)) if f.startswith(outp + ".") and f.endswith(".ndjson"))
     results = V.tlc_trace(scratch, "TraceCodec", "TraceCodec.cfg", files, label="tv-" + prop)
